@@ -11,6 +11,8 @@ PROPERTY = Property(
     standins=[StandIn("find_peaks = gap-threshold clusters", B.find_peaks, B.find_peaks.harness),
               StandIn("hits -> peaks -> sum_waveform: area conservation", B.peak_chain, B.peak_chain.harness),
               StandIn("replace_merged", B.replace_merged, B.replace_merged.harness),
+              StandIn("merge_peaks", B.merge_peaks, B.merge_peaks.harness),
+              StandIn("sum_waveform on the children of a split", B.sum_waveform_children, B.sum_waveform_children.harness),
               StandIn("split_peaks tiling (both split finders)", B.split_peaks, B.split_peaks.harness),
               StandIn("replay-scope:symmetric_moving_average", PK.symmetric_moving_average, PK.symmetric_moving_average.harness)],
     trusted=["pyvc VC generator and value model", "z3 5.1.0 / cvc5 1.4.0", "ghost prefix sums (definitional axioms)"],
